@@ -98,16 +98,27 @@ impl Client {
         {
             Ok(record) => {
                 debug!("Got scratchpad for {scratch_key:?}");
-                try_deserialize_record::<Scratchpad>(&record)
-                    .map_err(|_| VaultError::CouldNotDeserializeVaultScratchPad(scratch_address))?
+                let pad = try_deserialize_record::<Scratchpad>(&record)
+                    .map_err(|_| VaultError::CouldNotDeserializeVaultScratchPad(scratch_address))?;
+                // A holder can return anything under this key:
+                // only accept a scratchpad that is owned by the requested key and signed by it.
+                if pad.owner() != &client_pk || !pad.is_valid() {
+                    error!("Scratchpad returned for {scratch_key:?} is not owned and signed by the requested key");
+                    return Err(VaultError::CouldNotDeserializeVaultScratchPad(
+                        scratch_address,
+                    ));
+                }
+                pad
             }
             Err(NetworkError::GetRecordError(GetRecordError::SplitRecord { result_map })) => {
                 debug!("Got multiple scratchpads for {scratch_key:?}");
-                let mut pads = result_map
+                // Only consider the versions that are owned by the requested key and signed by it,
+                // anything else a holder may have returned is discarded.
+                let mut pads: Vec<Scratchpad> = result_map
                     .values()
-                    .map(|(record, _)| try_deserialize_record::<Scratchpad>(record))
-                    .collect::<Result<Vec<_>, _>>()
-                    .map_err(|_| VaultError::CouldNotDeserializeVaultScratchPad(scratch_address))?;
+                    .filter_map(|(record, _)| try_deserialize_record::<Scratchpad>(record).ok())
+                    .filter(|pad| pad.owner() == &client_pk && pad.is_valid())
+                    .collect();
 
                 // take the latest versions
                 pads.sort_by_key(|s| s.count());
